@@ -131,6 +131,15 @@ fn run_random<K: KeyT, V: ValT>(a: &Args) {
             let ev = w.exec(&json!({"op":"NewDflt","ty": if a.flag("set") { "set" } else { "map" },"cap":cap}));
             emit(&mut out, &ev);
         }
+        if a.flag("serde") && K::NAME != "zst" {
+            // one large deserialisation per run (the lengths straddle serde's 4096-element pre-sizing clamp and the
+            // capacity of the table that clamp produces)
+            let n = [7169u32, 300, 8000, 4097, 7168, 9000][(run % 6) as usize];
+            let ev = w.exec(&json!({"op":"SerdeBig","d":2,"n":n,"hm":hm,"ty": if a.flag("set") { "set" } else { "map" }}));
+            emit(&mut out, &ev);
+            let ev = w.exec(&json!({"op":"DropMap","s":2}));
+            emit(&mut out, &ev);
+        }
         for _ in 0..events {
             let op = g.next_op(&w);
             let ev = w.exec(&op);
@@ -179,10 +188,28 @@ fn run_faults<K: KeyT, V: ValT>(a: &Args) {
         // (most states: a resize pending with several elements still in the old table)
         let want_split = si % 4 != 3;
         let plen = g.rng.gen_range(5..60);
-        let mut w0: World<K, V> = World::new(2, 64);
+        let mut w0: World<K, V> = World::new(2, if a.flag("phases") { 400 } else { 64 });
         w0.silent = true;
         let mut prefix = Vec::new();
-        for i in 0..400 {
+        // --phases: the state is one of the matrix's structural phases (built deterministically), so that
+        // every operation template is interrupted at every crash point in every phase
+        let phases = a.flag("phases");
+        if phases {
+            let phase = si % MATRIX_PHASES;
+            let big = if (si / (MATRIX_PHASES * 18)) % 2 == 0 { 28usize } else { 56 };
+            let zst = K::NAME == "zst";
+            let mut exq = |w: &mut World<K, V>, mut op: Value| {
+                if zst {
+                    zero_vals(&mut op);
+                }
+                if let Some(o) = w.resolve(&op) {
+                    w.exec(&o);
+                    prefix.push(o);
+                }
+            };
+            build_phase(&mut w0, &mut exq, phase, a.flag("set"), hm, big);
+        }
+        for i in 0..(if phases { 0 } else { 400 }) {
             if i >= plen {
                 let ok = match w0.vstate(1) {
                     Some(st) => !want_split || (st.split && st.old_len >= 3) || K::NAME == "zst",
@@ -219,7 +246,7 @@ fn run_faults<K: KeyT, V: ValT>(a: &Args) {
             let vv = if zst { 0 } else { v(&mut g) };
             let addv = if zst { 0 } else { 3 };
             let set = a.flag("set");
-            let t = (si / 1) % 18;
+            let t = if phases { (si / MATRIX_PHASES) % 18 } else { (si / 1) % 18 };
             let oldk = json!({"cls":"old","i": g.rng.gen_range(0..40)});
             let maink = json!({"cls":"main","i": g.rng.gen_range(0..40)});
             let absent = json!({"cls":"absent","i": g.rng.gen_range(0..40)});
@@ -298,7 +325,7 @@ fn run_faults<K: KeyT, V: ValT>(a: &Args) {
                 seg += 1;
                 let mut calls: Vec<Value> = Vec::new(); // the concrete calls of the faulted segment, re-used by its twin
                 for twin in 0..2u32 {
-                    let mut w: World<K, V> = World::new(2, 64);
+                    let mut w: World<K, V> = World::new(2, if a.flag("phases") { 400 } else { 64 });
                     w.silent = true;
                     for op in &prefix {
                         w.exec(op);
@@ -859,6 +886,112 @@ fn run_script<K: KeyT, V: ValT>(a: &Args) {
 /// Random steering reaches these pairs with some probability; this mode reaches each of them in every run.
 /// One "run" = one (phase, operation) pair; `--first/--runs` select a range of pair indices.
 pub const MATRIX_PHASES: u64 = 11;
+/// Builds one of the structural phases of the matrix in slot 1 (deterministically, through the hook).
+/// `ex` executes an operation with state-relative fields (and decides what to do with the event).
+fn build_phase<K: KeyT, V: ValT>(w: &mut World<K, V>, ex: &mut dyn FnMut(&mut World<K, V>, Value), phase: u64, set: bool, hm: u8, big: usize) {
+    let zst = K::NAME == "zst";
+    let ty = if set { "set" } else { "map" };
+    let ins = |k: Value, v: u32| if set { json!({"op":"SInsert","s":1,"k":k}) } else { json!({"op":"Insert","s":1,"k":k,"v":v}) };
+    let rem = |k: Value| if set { json!({"op":"SRemove","s":1,"k":k}) } else { json!({"op":"Remove","s":1,"k":k}) };
+    ex(w, json!({"op":"New","s":1,"ty":ty,"cap":0,"hm":hm,"hs":0}));
+    let mut nk = 1u32;
+    macro_rules! fill_full {
+        ($min:expr) => {
+            for _ in 0..300 {
+                let st = w.vstate(1).unwrap();
+                if !st.split && st.main_cap == st.main_len && st.main_len >= $min {
+                    break;
+                }
+                ex(w, ins(json!(nk), nk % 10));
+                nk += 1;
+            }
+        };
+    }
+    if zst {
+        // one element at most: the phases collapse to empty / one in main / one in old / old emptied
+        match phase % 4 {
+            0 => {}
+            1 => ex(w, ins(json!(0), 0)),
+            2 => {
+                ex(w, ins(json!(0), 0));
+                ex(w, json!({"op":"Reserve","s":1,"n":{"rel":"cap","d":1}}));
+            }
+            _ => {
+                ex(w, ins(json!(0), 0));
+                ex(w, json!({"op":"Reserve","s":1,"n":{"rel":"cap","d":1}}));
+                ex(w, json!({"op":"Retain","s":1,"pred":{"none":1}}));
+            }
+        }
+    } else {
+        match phase {
+            0 => {}                                  // never allocated
+            1 => {
+                for _ in 0..5 {
+                    ex(w, ins(json!(nk), 1));
+                    nk += 1;
+                }
+            }
+            2 => fill_full!(14),                      // one table, growth_left = 0
+            3 => {
+                // resize just started by reserve: everything in the old table, main table empty
+                fill_full!(14);
+                ex(w, json!({"op":"Reserve","s":1,"n":{"rel":"cap","d":1}}));
+            }
+            4 | 5 | 6 | 7 | 9 | 10 => {
+                fill_full!(big);
+                ex(w, ins(json!(nk), 2));        // growth: R elements moved, the rest parked
+                nk += 1;
+                if phase == 5 || phase == 9 {
+                    ex(w, ins(json!(nk), 2));    // partly moved
+                    nk += 1;
+                }
+                if phase == 6 {
+                    // a single element left in the old table
+                    for _ in 0..200 {
+                        let st = w.vstate(1).unwrap();
+                        if !st.split || st.old_len <= 1 {
+                            break;
+                        }
+                        ex(w, rem(json!({"cls":"old","i":1})));
+                    }
+                }
+                if phase == 7 {
+                    // old table emptied by retain: it stays attached; main table non-empty
+                    ex(w, json!({"op":"Retain","s":1,"pred":{"table":"main"}}));
+                }
+                if phase == 9 {
+                    // main table emptied by removals while the old table still holds elements
+                    for _ in 0..200 {
+                        let st = w.vstate(1).unwrap();
+                        if st.main_len == 0 {
+                            break;
+                        }
+                        ex(w, rem(json!({"cls":"main","i":0})));
+                    }
+                }
+                if phase == 10 && !set {
+                    // old table emptied through the entry API (replace_entry_with(None) on every element)
+                    for _ in 0..200 {
+                        let st = w.vstate(1).unwrap();
+                        if !st.split || st.old_len == 0 {
+                            break;
+                        }
+                        ex(w, json!({"op":"Entry","s":1,"k":{"cls":"old","i":0},"chain":[{"m":"match"},{"m":"o_replace_entry_with"}]}));
+                    }
+                } else if phase == 10 {
+                    ex(w, json!({"op":"Retain","s":1,"pred":{"table":"main"}}));
+                }
+            }
+            _ => {
+                // 8: old table attached, and both tables empty
+                fill_full!(14);
+                ex(w, json!({"op":"Reserve","s":1,"n":{"rel":"cap","d":1}}));
+                ex(w, json!({"op":"Retain","s":1,"pred":{"none":1}}));
+            }
+        }
+    }
+}
+
 fn zero_vals(v: &mut Value) {
     match v {
         Value::Object(m) => {
@@ -903,104 +1036,7 @@ fn run_matrix<K: KeyT, V: ValT>(a: &Args) {
         };
         let ins = |k: Value, v: u32| if set { json!({"op":"SInsert","s":1,"k":k}) } else { json!({"op":"Insert","s":1,"k":k,"v":v}) };
         let rem = |k: Value| if set { json!({"op":"SRemove","s":1,"k":k}) } else { json!({"op":"Remove","s":1,"k":k}) };
-        // ---- build the phase ----
-        ex(&mut w, json!({"op":"New","s":1,"ty":ty,"cap":0,"hm":hm,"hs":0}));
-        let mut nk = 1u32;
-        macro_rules! fill_full {
-            ($min:expr) => {
-                for _ in 0..300 {
-                    let st = w.vstate(1).unwrap();
-                    if !st.split && st.main_cap == st.main_len && st.main_len >= $min {
-                        break;
-                    }
-                    ex(&mut w, ins(json!(nk), nk % 10));
-                    nk += 1;
-                }
-            };
-        }
-        if zst {
-            // one element at most: the phases collapse to empty / one in main / one in old / old emptied
-            match phase % 4 {
-                0 => {}
-                1 => ex(&mut w, ins(json!(0), 0)),
-                2 => {
-                    ex(&mut w, ins(json!(0), 0));
-                    ex(&mut w, json!({"op":"Reserve","s":1,"n":{"rel":"cap","d":1}}));
-                }
-                _ => {
-                    ex(&mut w, ins(json!(0), 0));
-                    ex(&mut w, json!({"op":"Reserve","s":1,"n":{"rel":"cap","d":1}}));
-                    ex(&mut w, json!({"op":"Retain","s":1,"pred":{"none":1}}));
-                }
-            }
-        } else {
-            match phase {
-                0 => {}                                  // never allocated
-                1 => {
-                    for _ in 0..5 {
-                        ex(&mut w, ins(json!(nk), 1));
-                        nk += 1;
-                    }
-                }
-                2 => fill_full!(14),                      // one table, growth_left = 0
-                3 => {
-                    // resize just started by reserve: everything in the old table, main table empty
-                    fill_full!(14);
-                    ex(&mut w, json!({"op":"Reserve","s":1,"n":{"rel":"cap","d":1}}));
-                }
-                4 | 5 | 6 | 7 | 9 | 10 => {
-                    fill_full!(big);
-                    ex(&mut w, ins(json!(nk), 2));        // growth: R elements moved, the rest parked
-                    nk += 1;
-                    if phase == 5 || phase == 9 {
-                        ex(&mut w, ins(json!(nk), 2));    // partly moved
-                        nk += 1;
-                    }
-                    if phase == 6 {
-                        // a single element left in the old table
-                        for _ in 0..200 {
-                            let st = w.vstate(1).unwrap();
-                            if !st.split || st.old_len <= 1 {
-                                break;
-                            }
-                            ex(&mut w, rem(json!({"cls":"old","i":1})));
-                        }
-                    }
-                    if phase == 7 {
-                        // old table emptied by retain: it stays attached; main table non-empty
-                        ex(&mut w, json!({"op":"Retain","s":1,"pred":{"table":"main"}}));
-                    }
-                    if phase == 9 {
-                        // main table emptied by removals while the old table still holds elements
-                        for _ in 0..200 {
-                            let st = w.vstate(1).unwrap();
-                            if st.main_len == 0 {
-                                break;
-                            }
-                            ex(&mut w, rem(json!({"cls":"main","i":0})));
-                        }
-                    }
-                    if phase == 10 && !set {
-                        // old table emptied through the entry API (replace_entry_with(None) on every element)
-                        for _ in 0..200 {
-                            let st = w.vstate(1).unwrap();
-                            if !st.split || st.old_len == 0 {
-                                break;
-                            }
-                            ex(&mut w, json!({"op":"Entry","s":1,"k":{"cls":"old","i":0},"chain":[{"m":"match"},{"m":"o_replace_entry_with"}]}));
-                        }
-                    } else if phase == 10 {
-                        ex(&mut w, json!({"op":"Retain","s":1,"pred":{"table":"main"}}));
-                    }
-                }
-                _ => {
-                    // 8: old table attached, and both tables empty
-                    fill_full!(14);
-                    ex(&mut w, json!({"op":"Reserve","s":1,"n":{"rel":"cap","d":1}}));
-                    ex(&mut w, json!({"op":"Retain","s":1,"pred":{"none":1}}));
-                }
-            }
-        }
+        build_phase(&mut w, &mut ex, phase, set, hm, big);
         // a second collection for the two-slot operations: other hasher state, a few shared keys
         let two_slot = if set { opi >= 30 } else { (50..56).contains(&opi) };
         if two_slot {
